@@ -334,6 +334,9 @@ def _run_group_once(g: Group, prop: str, keep_trace=True, sub="") -> Result:
             raise Infra("quantifier ignored by back end")
         if results is None:
             raise Infra("cbmc produced no result (rc=%s): %s" % (rc, alltxt[-2500:]))
+        if any(r.get("status") == "ERROR" for r in results) or any(item.get("cProverStatus") == "error" for item in js):
+            # e.g. "Solver ran out of memory": nothing was decided for the affected obligations
+            raise Infra("cbmc reported an error (out of memory / solver error): " + alltxt[-600:])
         n = 0
         ok = 0
         canaries = 0
